@@ -8,7 +8,7 @@
    Proofs/GenAC.v proves: checker = true  ->  for ALL haystacks the search model equals the
    specification.  The checker is extracted and run on the arrays the implementation itself
    serialised, so the search properties are decided per built automaton for all haystacks. *)
-From DV Require Import Model.Base Model.Nfa Model.BwBuild Model.BwSearch Model.Spec.
+From DV Require Import Model.Base Model.Nfa Model.BwBuild Model.BwSearch Model.Spec Model.Utf8 Model.CwBuild Model.CwSearch.
 
 Fixpoint tails (w : list N) : list (list N) :=
   w :: match w with [] => [] | _ :: r => tails r end.
@@ -290,3 +290,49 @@ Definition bw_stats_ok {V} (A : bw_automaton V) (pvs : list (list N * V)) : bool
   (bw_num_states A =? cnt)
   && (cnt =? 1 + N.of_nat (length (Spec.distinct_nonempty_prefixes V pvs)))
   && (bw_num_states A <=? N.of_nat (length (bw_states A))).
+
+(* ---- instantiation: character-wise automaton ------------------------------------------------ *)
+(* labels are Unicode scalar values; the goto function goes through the code mapper *)
+Section CwCert.
+Variable V : Type.
+Variable veqb : V -> V -> bool.
+Variable sget : N -> option cstate.
+Variable oget : N -> option (output V).
+Variable tget : N -> option N.
+
+Definition cwc_child (s c : N) : res (option N) :=
+  match mapper_get tget c with
+  | Some mc => cw_child sget s mc
+  | None => Ok None
+  end.
+Definition cwc_failof (s : N) : res N := st <- cst_at sget s ;; Ok (c_fail st).
+Definition cwc_outposof (s : N) : res N := st <- cst_at sget s ;; Ok (c_outpos st).
+Definition cwc_outat (pos : N) : res (output V) := cout_at V oget pos.
+(* the stored length of a pattern is its length in bytes *)
+Definition cwc_plen (p : list N) : N := fold_left (fun acc c => acc + len_utf8 c) p 0.
+(* the characters the mapper knows *)
+Definition cwc_labels (tlen : nat) : list N :=
+  filter (fun c => isSome (mapper_get tget c)) (nseq 0 tlen).
+
+Definition cwc_cert_ok (pvs : list (list N * V)) (tlen nslots nouts : nat) : bool :=
+  cert_ok V veqb cwc_child cwc_failof cwc_outposof cwc_outat (cwc_labels tlen) cwc_plen pvs nslots nouts.
+End CwCert.
+
+Definition cw_cert_ok {V} (veqb : V -> V -> bool) (A : cw_automaton V) (pvs : list (list N * V)) : bool :=
+  let sget := cw_sget V A in
+  let oget := cw_oget V A in
+  let tget := cw_tget V A in
+  is_standard (cw_kind A)
+  && cwc_cert_ok V veqb sget oget tget pvs (length (mp_table (cw_mapper A))) (length (cw_states A)) (length (cw_outputs A)).
+
+(* ---- C07, character-wise: the range check ---------------------------------------------------- *)
+Definition cw_slot_ok (len nout : N) (s : cstate) : bool :=
+  ((c_base s =? 0) || (c_base s <? len)) && (c_fail s <? len) && (c_outpos s <=? nout).
+Definition cw_safe_b {V} (A : cw_automaton V) : bool :=
+  let len := N.of_nat (length (cw_states A)) in
+  let nout := N.of_nat (length (cw_outputs A)) in
+  let bl := N.max (next_power_of_two (mp_alpha (cw_mapper A))) 2 in
+  (1 <? len) && (2 ^ N.log2 bl =? bl) && (len mod bl =? 0)
+  && forallb (fun code => (code =? INVALID_CODE) || (code <? bl)) (mp_table (cw_mapper A))
+  && forallb (cw_slot_ok len nout) (cw_states A)
+  && forallb (fun o => o_parent o <=? nout) (cw_outputs A).
